@@ -114,6 +114,19 @@ make(0j)(1)
 later = make(0j)
 later(
 ''',
+    # straight-line rebinding: goto/infer must name the last assignment only; a switch left off
+    # by an earlier query (flow analysis) shows up here
+    'u:rebinding': '''\
+count = 1
+count = 'a'
+count
+def build():
+    acc = []
+    acc = {}
+    return acc
+made = build()
+made
+''',
 }
 
 MENU_SEEDS = [0, 1, 2, 3, 7, 42]
@@ -334,7 +347,7 @@ def _events(text):
     if lone:
         mid = lone[0]       # a name alone on its line: inferring it runs the whole flow to it
     return [('infer', mid[0], mid[1]), ('complete', last[0], last[2]), ('goto', last[0], last[1]),
-            ('get_references', mid[0], mid[1]), ('get_names', None, None),
+            ('get_references', mid[0], mid[1]), ('get_references_file', mid[0], mid[1]),
             ('infer', nlines + 5, 0),                      # raises ValueError
             ('rename', 1, 0),                              # keyword/def position: may raise
             ('get_signatures', mid[0], mid[2])]
@@ -343,7 +356,8 @@ def _events(text):
 def _do_event(script, ev):
     m, l, c = ev
     try:
-        if m == 'get_names':
+        if m == 'get_references_file':
+            script.get_references(l, c, scope='file')
             script.get_names(all_scopes=True)
         elif m == 'rename':
             script.rename(l, c, new_name='zz')
@@ -478,11 +492,11 @@ def run(ctx):
     seqs = [list(s) for d in range(1, depth + 1) for s in itertools.product(range(8), repeat=d)]
     # repetition runs on programs whose answers do not depend on set order (the order-dependent
     # ones are the subject of (i) and would make "same answer again" depend on object addresses)
-    det = [(p, t) for p, t in progs if p == 'u:exec-budget']
+    det = [(p, t) for p, t in progs if p in ('u:exec-budget', 'u:rebinding')]
     for chain in (['identity'], ['init_attr'], ['closure', 'method_ret'], ['generator_for']):
         pp = pf.build('inst', chain)
         det.append((pp.pid(), pp.render()['main.py']))
-    rep_progs = det[:3] if tier == 'quick' else det
+    rep_progs = det[:4] if tier == 'quick' else det
     tasks = []
     for pid, text in rep_progs:
         chunk = max(1, len(seqs) // 16)
